@@ -715,6 +715,18 @@ def c08_cases(seed, tier):
         return int(tl[2:], 16) if tl.startswith("0x") else int(tl[2:], 2) if tl.startswith("0b") else int(t, 8) if t.startswith("0") and len(t) > 1 else int(t)
     cases.append({"id": "c08-bare", "kind": "run", "src": "A V\ndeclare V = Q;\n" + "".join("0 %s\n" % t for t in bare), "sigs": sigs, "layout": [1], "table": [["1"]],
                   "echo": 0, "wdefault": 0, "faults": [], "max": 100000, "seed": 1, "c08": [_val(t) for t in bare], "c08_bare": True})
+    # (1d) every binary operator directly between two literals of every radix, no blank anywhere (0xF^1, 0b11<<0x2, 017>=9)
+    lits = [("0xF", 15), ("0Xa", 10), ("0x1f", 31), ("0b11", 3), ("0B10", 2), ("017", 15), ("07", 7), ("9", 9), ("12", 12), ("0", 0), ("0xE", 14), ("0x1A", 26)]
+    tlines, texp = ["A V", "declare V = Q;"], []
+    for op in gen.BINOPS:
+        for (ta, va) in lits:
+            tb, vb = lits[(len(texp) * 5 + 3) % len(lits)]
+            if op in ("/", "%") and vb == 0:
+                tb, vb = "0x3", 3
+            tlines.append("0 (%s%s%s)" % (ta, op, tb))
+            texp.append(py_eval(("bin", op, ("num", va), ("num", vb)), {}))
+    cases.append({"id": "c08-touch", "kind": "run", "src": "\n".join(tlines) + "\n", "sigs": sigs, "layout": [1], "table": [["1"]],
+                  "echo": 0, "wdefault": 0, "faults": [], "max": 100000, "seed": 1, "c08": texp})
     # (2) random trees, minimal and redundant parentheses, unary operators, ite, radix mix
     n = 300 if tier == "quick" else 20000
     for i in range(n):
@@ -723,6 +735,8 @@ def c08_cases(seed, tier):
         eg = gen.ExprGen(r, vars_=["x", "y", "z"], small=(i % 3 == 0), shift_small=False, allow_random=False)
         e = eg.gen(r.randrange(2, 7))
         text = gen.print_expr(e, r, redundant=(0.0 if i % 2 == 0 else 0.3), radix_mix=(i % 4 == 1))
+        if i % 4 in (1, 2):
+            text = text.replace(" ", "")          # tokens that touch: 0xF^1, 7--3, x<<2
         lines = ["A V", "declare V = Q;"]
         for k_, v_ in env.items():
             lines.append("let %s = %s;" % (k_, str(v_) if v_ >= 0 else lit64(v_)[1:-1]))
